@@ -37,6 +37,7 @@ type mChain struct {
 	services []*mService
 	rule     string // happy | bit | fabsim: the master rule (observed after every block when rule operations are generated)
 	ruleAt   uint64 // height of the last block in which the observed master rule changed
+	swapped  bool   // the admin the chain was registered with has been replaced (adminswap)
 }
 
 type txMeta struct {
